@@ -182,6 +182,8 @@ class Driver:
     # ---- steps
     def step(self, st):
         op = st[0]
+        hf = self.scen.get('hash_free')
+        self.ex.hash_order = None if (hf is None or op in hf) else 'insertion'
         fn = getattr(self, 'op_' + op, None)
         if fn is None:
             raise Unsupported('scenario step ' + op)
@@ -410,6 +412,119 @@ class Driver:
         if spec.get('script') is not None:
             out['script'] = getattr(self, 'script_obs', None)
             self.script_obs = None
+        return out
+
+    # ---- graph container ------------------------------------------------------------------
+    def gcall(self, method, args):
+        return self.ex.call(f'{self.GRAPH}::<K, N, E>::{method}', args)
+
+    def alias_of(self, node):
+        """index of the harness node that is the same allocation as `node` (None if none)"""
+        box = node.f[0].box
+        for i, c in enumerate(self.nodes):
+            if c.v is not None and c.v.f[0].box is box:
+                return i
+        return None
+
+    def node_obs(self, node):
+        c = Cell(node)
+        o = {'alias': self.alias_of(node), 'key': self.key_of(Ref(c)), 'value': self.value_of(Ref(c))}
+        self.ex.drop(c.v)
+        return o
+
+    def op_g_new(self):
+        self.graph = Cell(self.gcall('new', []))
+        return 'ok'
+
+    def op_g_insert(self, i):
+        n = self.ex.call(f'<{self.NODE}<K, N, E> as Clone>::clone', [Ref(self.nodes[i])])
+        return self.gcall('insert', [Ref(self.graph), n])
+
+    def op_g_get(self, k):
+        r = self.gcall('get', [Ref(self.graph), Ref(Cell(self.val(k)))])
+        return None if r.variant == 0 else self.node_obs(r.f[0])
+
+    def op_g_index(self, k):
+        r = self.ex.call(f'<{self.GRAPH}<K, N, E> as Index<K>>::index', [Ref(self.graph), self.val(k)])
+        n = self.ex.deref(r)
+        return {'alias': self.alias_of(n), 'key': self.key_of(r), 'value': self.value_of(r)}
+
+    def op_g_contains(self, k):
+        return self.gcall('contains', [Ref(self.graph), Ref(Cell(self.val(k)))])
+
+    def op_g_len(self):
+        return self.gcall('len', [Ref(self.graph)])
+
+    def op_g_is_empty(self):
+        return self.gcall('is_empty', [Ref(self.graph)])
+
+    def op_g_remove(self, k):
+        r = self.gcall('remove', [Ref(self.graph), Ref(Cell(self.val(k)))])
+        return None if r.variant == 0 else self.node_obs(r.f[0])
+
+    def _node_vec(self, v):
+        out = [self.alias_of(n) for n in v.f]
+        self.ex.drop(v)
+        return out
+
+    def op_g_to_vec(self):
+        return self._node_vec(self.gcall('to_vec', [Ref(self.graph)]))
+
+    def op_g_roots(self):
+        return self._node_vec(self.gcall('roots', [Ref(self.graph)]))
+
+    def op_g_leaves(self):
+        return self._node_vec(self.gcall('leaves', [Ref(self.graph)]))
+
+    def op_g_orphans(self):
+        return self._node_vec(self.gcall('orphans', [Ref(self.graph)]))
+
+    def op_g_iter(self):
+        it = Cell(self.gcall('iter', [Ref(self.graph)]))
+        out = []
+        while True:
+            r = models.iter_next(self.ex, Ref(it))
+            if r.variant == 0:
+                break
+            kr, nr = r.f[0].f
+            out.append([self.ex.deref(kr), self.alias_of(self.ex.deref(nr))])
+        return out
+
+    def op_g_to_dot(self):
+        r = self.gcall('to_dot', [Ref(self.graph)])
+        return models.render(r.f)
+
+    def op_g_to_dot_attr(self, spec):
+        def strvec(pairs):
+            return Some(Agg('Vec', [Agg('tuple', [Agg('String', [k]), Agg('String', [v])]) for k, v in pairs]))
+
+        def gattr(ex, g):
+            return NONE() if spec.get('gattr') is None else strvec(spec['gattr'])
+
+        def nattr(ex, nref):
+            k = self.key_of(nref)
+            for key, pairs in spec.get('nattr', []):
+                if _same(key, k):
+                    return strvec(pairs)
+            return NONE()
+
+        def eattr(ex, uref, vref, eref):
+            u, v = self.key_of(uref), self.key_of(vref)
+            for a, b, pairs in spec.get('eattr', []):
+                if _same(a, u) and _same(b, v):
+                    return strvec(pairs)
+            return NONE()
+        r = self.gcall('to_dot_with_attr', [Ref(self.graph), Ref(Cell(PyFn(gattr))), Ref(Cell(PyFn(nattr))),
+                                            Ref(Cell(PyFn(eattr)))])
+        return models.render(r.f)
+
+    def op_g_scc(self):
+        r = self.gcall('scc', [Ref(self.graph)])
+        out = []
+        for comp in r.f:
+            cc = Cell(comp)
+            out.append([self.key_of(Ref(cc, (('i', i),))) for i in range(len(comp.f))])
+        self.ex.drop(r)
         return out
 
     def err_name(self, e):
